@@ -2,9 +2,10 @@ package meta_test
 
 // C15 - Channel routing metadata never regresses.
 //
-// Explicit-state exploration of the real channel_runtime_meta table. One meta DB is opened
-// per process on tmpfs; every instance (= every explored path) works on a fresh channel id,
-// so "fresh instance + replay of the path" is a handful of point writes. The table keeps no
+// Explicit-state exploration of the real channel_runtime_meta table. A pool of meta DBs is
+// opened once per process on tmpfs; every instance (= every explored path) borrows one DB
+// exclusively and works on a fresh channel id, so "fresh instance + replay of the path" is a
+// handful of point writes. The table keeps no
 // per-key cache (reads go straight to the engine; the only cache in MetaDB is the Channel
 // cache, a different table), therefore the stored row read back through the API is the
 // whole state and states are merged on it.
@@ -790,7 +791,7 @@ func TestVerifC15(t *testing.T) {
 	env.buildAlphabet(r.Thorough())
 	bounds := map[string]any{
 		"candidate_writes": len(env.cands), "events": len(env.events),
-		"menus": "channel epoch/leader epoch {1,2}(quick) {1,2,3}(thorough) x leader {1,2} x lease {100,200[,300]} x aspects(retention seq/time, fence version/token, explicit route generation 1/4/9 vs derived, ISR, replicas, status, minISR); create-if-absent subset; retention advance {match, 4 stale fences} x seq {3,5,9} x time {45,60}; 36 two-write atomic batches; delete",
+		"menus": "channel epoch {1,2} x leader epoch {1,2} x leader {1,2} x lease {100,200} x aspects (quick 10: base, retention 5@50 / 9@40, fence v1 t1 / v2 t2 / v2 cleared, explicit route generation 4 / 9, ISR {1,2}, status 2; thorough 17: + retention 5@30, fence v1 other token, explicit route generation 1, replicas +4, minISR 1, two combined); create-if-absent subset; retention advance {match, 4 stale fences} x seq {3,5,9} x time {45,60}; 36 two-write atomic batches; delete",
 	}
 	run := func(name string, drv c15Driver, direct bool, depth int, workers int, maxStates int64) mc.Result {
 		return mc.Run(r, mc.System{
@@ -801,10 +802,10 @@ func TestVerifC15(t *testing.T) {
 			MaxStates: maxStates,
 			KeepGoing: true, // a violating transition (known finding KF-C15-1) does not hide the states behind it
 			Bounds:    bounds,
-			Note:      "state = stored row read back through GetChannelRuntimeMeta (fresh channel id per path, one shared DB); oracle on every transition (old row, write, result, new row)",
+			Note:      "state = stored row read back through GetChannelRuntimeMeta (fresh channel id per path, one tmpfs DB per live instance); oracle on every transition (old row, write, result, new row)",
 		})
 	}
-	d := run("runtime-meta-direct", c15Direct{}, true, ev.Pick(r, 3, 3), 0, ev.Pick(r, int64(60000), int64(400000)))
+	d := run("runtime-meta-direct", c15Direct{}, true, ev.Pick(r, 3, 4), 0, ev.Pick(r, int64(60000), int64(600000)))
 	f := run("runtime-meta-fsm", c15FSM{}, false, ev.Pick(r, 2, 3), 32, ev.Pick(r, int64(20000), int64(60000)))
 	if r.Replay() != nil {
 		return
